@@ -862,3 +862,8 @@ Proof.
     - destruct (code_items_partial d Hs) as (its' & H' & Hi). congruence. }
   eapply agrees_unconditional; eassumption.
 Qed.
+
+Lemma never_panics : forall objs,
+  (exists gs, propagate_cfg objs = Ok gs /\ List.length gs = List.length (preorder objs)) /\
+  (exists gs, propagate_cfg_fixed objs = Ok gs /\ List.length gs = List.length (preorder objs)).
+Proof. intro objs; split; [exact (propagate_cfg_total objs) | exact (propagate_cfg_fixed_total objs)]. Qed.
